@@ -133,8 +133,8 @@ def load_module(hashed_grammar, file_io, cache_path=None):
 
 
 def _load_from_file_system(hashed_grammar, path, p_time, cache_path=None):
-    cache_path = _get_hashed_path(hashed_grammar, path, cache_path=cache_path)
     try:
+        cache_path = _get_hashed_path(hashed_grammar, path, cache_path=cache_path)
         if p_time > os.path.getmtime(cache_path):
             # Cache is outdated
             return None
@@ -145,15 +145,23 @@ def _load_from_file_system(hashed_grammar, path, p_time, cache_path=None):
                 module_cache_item = pickle.load(f)
             finally:
                 gc.enable()
-    except FileNotFoundError:
-        return None
-    else:
+
         if p_time > module_cache_item.change_time:
             # The file was modified after it had been read for this entry.
             return None
+        node = module_cache_item.node
+    except FileNotFoundError:
+        return None
+    except Exception as e:
+        # A cache file can be empty, truncated or garbage (e.g. after a crash,
+        # a full disk or because another process is just writing it) and the
+        # directory can be unreadable. That's simply a cache miss.
+        LOG.debug('pickle could not be loaded: %s (%s)', path, e)
+        return None
+    else:
         _set_cache_item(hashed_grammar, path, module_cache_item)
         LOG.debug('pickle loaded: %s', path)
-        return module_cache_item.node
+        return node
 
 
 def _set_cache_item(hashed_grammar, path, module_cache_item):
@@ -200,8 +208,18 @@ def try_to_save_module(hashed_grammar, file_io, module, lines, pickling=True, ca
                 'Tried to save a file to %s, but got permission denied.' % path,
                 Warning
             )
+        except OSError as e:
+            # The same goes for a full disk and other I/O problems.
+            warnings.warn(
+                'Tried to save a file to %s, but got %s.' % (path, e),
+                Warning
+            )
         else:
-            _remove_cache_and_update_lock(cache_path=cache_path)
+            try:
+                _remove_cache_and_update_lock(cache_path=cache_path)
+            except OSError:
+                # Cleaning up is optional and must never make parsing fail.
+                pass
 
 
 def _save_to_file_system(hashed_grammar, path, item, cache_path=None):
